@@ -88,6 +88,26 @@ pub fn scenarios(tier: Tier) -> Vec<Scenario> {
 	shapes.push(vec![1500, small]);
 	shapes.push(vec![small, 1500, small]);
 	let mut out = vec![];
+	// boundary sweep: every value size around the largest batch that still fits an empty 4 KiB
+	// memtable (single value, and a small value followed by the swept one)
+	{
+		let (lo, hi, step) = if tier == Tier::Quick { (3300usize, 3750usize, 1usize) } else { (3000, 4200, 1) };
+		let mut size = lo;
+		while size <= hi {
+			for shape in [vec![size], vec![small, size]] {
+				out.push(Scenario {
+					memtable: 4096,
+					nbefore: 0,
+					fill: 0,
+					flush_before: false,
+					shape,
+					overwrite_first: false,
+					nafter: 2,
+				});
+			}
+			size += step;
+		}
+	}
 	let memtables: Vec<usize> = if tier == Tier::Quick { vec![4096] } else { vec![4096, 8192, 1024] };
 	for memtable in memtables {
 		for nbefore in [0usize, 1, 3] {
